@@ -71,9 +71,10 @@ type ReqSpec struct {
 
 // Fees is a policy change made by the committee.
 type Fees struct {
-	Fpb  int64 `json:"fpb"`  // fee per byte; 0 = unchanged
-	Eff  int64 `json:"eff"`  // exec fee factor; 0 = unchanged
-	Attr int64 `json:"attr"` // fee of the OracleResponse attribute; -1 = unchanged
+	Fpb   int64 `json:"fpb"`   // fee per byte; 0 = unchanged
+	Eff   int64 `json:"eff"`   // exec fee factor; 0 = unchanged
+	Attr  int64 `json:"attr"`  // fee of the OracleResponse attribute; -1 = unchanged
+	Price int64 `json:"price"` // price of an oracle request (native Oracle setPrice); 0 = unchanged
 }
 
 // Req is a request as the producer ledger recorded it.
@@ -441,6 +442,8 @@ func (w *World) onTx(nd *Node, inc int, tx *transaction.Transaction) error {
 	cp, err := transaction.NewTransactionFromBytes(tx.Bytes())
 	if err != nil {
 		s.Err = fmt.Errorf("does not round-trip through its wire form: %w", err)
+	} else if nd.BC.GetMemPool().ContainsKey(tx.Hash()) {
+		s.Err = nil // the refresh re-sends what is pooled already: the ledger has it
 	} else {
 		s.Err = nd.BC.PoolTx(cp)
 	}
@@ -777,6 +780,9 @@ func (w *World) Mine(newReqs []ReqSpec, desig []int, fees *Fees) (made []*Req, i
 		if fees.Attr >= 0 {
 			txs = append(txs, w.prepTx(cmt, 2*gas, pol, "setAttributeFee", int64(transaction.OracleResponseT), fees.Attr))
 		}
+		if fees.Price > 0 {
+			txs = append(txs, w.prepTx(cmt, 2*gas, nativehashes.OracleContract, "setPrice", fees.Price))
+		}
 	}
 	if desig != nil {
 		txs = append(txs, w.prepTx(cmt, 2*gas, w.e.NativeHash(w.t, nativenames.Designation), "designateAsRole", int64(noderoles.Oracle), w.pubs(desig)))
@@ -968,9 +974,9 @@ type TxView struct {
 type IncView struct {
 	MainTx, BackupTx *transaction.Transaction
 	Main, Backup     *TxView
-	Sent         bool
-	Sigs, BSigs  []int // keys whose signature is recorded as verified for main / backup
-	USigs        []int // keys with a recorded, not yet verified signature
+	Sent             bool
+	Sigs, BSigs      []int // keys whose signature is recorded as verified for main / backup
+	USigs            []int // keys with a recorded, not yet verified signature
 }
 
 func unexported(v reflect.Value) reflect.Value {
